@@ -41,7 +41,7 @@ def get_process_heat_cascade(
         zone_config=zone_config,
     )
     # Perform the heat cascade of the problem table
-    problem_table_algorithm(pt, hot_streams, cold_streams)
+    problem_table_algorithm(pt, hot_streams, cold_streams, is_shifted)
 
     heat_recovery_target = get_heat_recovery_target_from_pt(pt)
     if isinstance(known_heat_recovery, float):
